@@ -540,6 +540,68 @@ def reuse_step(rng, pair, pool):
                   own=(((ow_,), {}), ((od_,), {})))
 
 
+MH_VALUES = {
+    "char16": (Char16("x"), [Char16("a"), Char16("b")], "C", "CA"),
+    "str": ("text", ["a", ""], "S", "SA"),
+    "bool": (False, [True, False], "B", "BA"),
+    "uint8": (Sint8(-5), [Uint16(1), Uint16(2)], "S1", "U2A"),
+    "real32": (Real32(1.5), None, "R4", None),
+    "datetime": (CIMDateTime("20200101120000.000000+060"),
+                 [CIMDateTime("00000000000001.000000:000")], "D", "DA"),
+    "ref": (CIMInstanceName("VA", keybindings={"k": Uint32(1)}),
+            [CIMInstanceName("VA", keybindings={"k": Uint32(2)},
+                             namespace=NS2)], "RF", "RFA"),
+}
+MH_NS = {"n1": NS1, "n2": NS2}
+
+
+def method_history(rng, dflt, hist):
+    """One TLC-enumerated history of WireMethod.tla on both paths: kept
+    object names (built with / without namespace), InvokeMethod with one
+    parameter of a Python value class in a passing style, default-namespace
+    switches, intrinsic operations on the kept objects."""
+    pair = Pair(MH_NS[dflt])
+    kept = {}
+    for st in hist:
+        if st["k"] == "switch":
+            pair.set_default(MH_NS[st["d"]])
+            continue
+        o = st["o"]
+        if o not in kept:
+            mk = lambda: CIMInstanceName(  # noqa
+                "VM", keybindings={"k": Uint32(1)},
+                namespace=NS1 if o == "oN1" else None)
+            kept[o] = (mk(), mk(), mk())
+        ow_, od_, pristine = kept[o]
+        nsarg = pristine.namespace or ""
+        if st["k"] == "intrinsic":
+            pair.call("GetInstance", None, None, nsarg,
+                      {"InstanceName": pristine},
+                      label="GetInstance(<kept %s>)" % (pristine,),
+                      own=(((ow_,), {}), ((od_,), {})))
+            continue
+        sc, ar, nsc, nar = MH_VALUES[st["v"]["id"]]
+        arr = ar is not None and rng.random() < 0.4
+        v, n = (copy.deepcopy(ar), nar) if arr else (copy.deepcopy(sc), nsc)
+        if st["style"] == "cimparam":
+            arg = CIMParameter(n, mtype(v), value=v, is_array=arr)
+            calls = [(("DoAll", ow_, [copy.deepcopy(arg)]), {}),
+                     (("DoAll", od_, [copy.deepcopy(arg)]), {})]
+        elif st["style"] == "tuple":
+            arg = v
+            calls = [(("DoAll", ow_, [(n, copy.deepcopy(v))]), {}),
+                     (("DoAll", od_, [(n, copy.deepcopy(v))]), {})]
+        else:
+            arg = v
+            calls = [(("DoAll", ow_), {n: copy.deepcopy(v)}),
+                     (("DoAll", od_), {n: copy.deepcopy(v)})]
+        pair.call("InvokeMethod", None, None, nsarg, {n: arg},
+                  label="InvokeMethod(DoAll, <kept %s>, %s=%r as %s)" % (
+                      pristine, n, v, st["style"]),
+                  own=tuple(calls))
+    return pair
+
+
 def _pull(pair, cw, cd, m):
     pair.facade.saw = None
     ow, vw = outcome(lambda: pair.wire.PullInstancesWithPath(
@@ -619,6 +681,30 @@ def run(ctx):
             pairs.append(p)
         shape_call(p, sh, i)
     ctx.extra["tlc_call_shapes_replayed"] = len(shapes)
+    # -- InvokeMethod inside histories with kept argument objects -------------
+    ctx.tlc("WireMethod", "WireMethod.cfg",
+            label="method marshalling in histories: target namespace, "
+            "inferred parameter types, caller objects untouched")
+    for cfg, what in (("WireMethodLegacyAlias.cfg",
+                       "caller's object name normalised in place"),
+                      ("WireMethodLegacyInfer.cfg",
+                       "builtin types tested before CIMType in infer_type")):
+        r = ctx.tlc("WireMethod", cfg, must_pass=False, count=False,
+                    label="must fail: " + what)
+        if r.violated != "ServerSawWhatCallerSupplied":
+            raise vlib.MachineryError("%s did not fail" % cfg)
+        sens.append("%s violates %s as required (%s)" % (cfg, r.violated, what))
+    hists = []
+    for cfg in ("WireMethodGen2.cfg", "WireMethodGen3.cfg"):
+        rg = ctx.tlc("WireMethod", cfg, workers=1, count=False,
+                     label="enumeration of method-call histories")
+        hs = rg.printed("MH")
+        ctx.rng.shuffle(hs)
+        hs = hs[:90 if quick else 2500]
+        hists += hs
+    for _, d0, hist in hists:
+        pairs.append(method_history(ctx.rng, d0, list(hist)))
+    ctx.extra["tlc_method_histories_replayed"] = len(hists)
     nseq = 40 if quick else 700
     for i in range(nseq):
         p = Pair(ctx.rng.choice([NS1, NS1, NS2, "root/other"]))
